@@ -231,6 +231,9 @@ def gate_ops(case):
         qs = list(g.get("controls") or []) + list(g.get("targets") or [])
         if g["name"] == "GLOBALPHASE":
             ops.append((np.exp(1j * g["arg"]), []))
+        elif g["name"] in users:
+            # the circuit's own user_gates entry defines a gate of that name, library name or not
+            ops.append((user_matrix(users[g["name"]], g.get("arg")), qs))
         elif g.get("cls") == "UserSubGate":
             ops.append((uncm(g["matrix"]), qs))
         elif g.get("cls") == "ControlledGate":
@@ -353,8 +356,8 @@ def run_paths(case, want_trace=None):
     rho /= np.trace(rho)
     X = rs.normal(size=(D, D)) + 1j * rs.normal(size=(D, D))
     E = apply_circuit(ops, N, np.eye(D))
-    if N <= 4 and all((g["name"] in Q.N_QUBITS or g["name"] == "GLOBALPHASE") and g.get("cls") in (None, g["name"])
-                      for g in case["gates"]):
+    if N <= 4 and not case.get("users") and all((g["name"] in Q.N_QUBITS or g["name"] == "GLOBALPHASE")
+                                                and g.get("cls") in (None, g["name"]) for g in case["gates"]):
         E2 = Q.circuit_unitary([(g["name"], list(g.get("controls") or []) + list(g.get("targets") or []), g.get("arg"))
                                 for g in case["gates"]], N)
         assert maxdiff(E, E2) < 1e-9, "the two independent oracles disagree"
@@ -376,7 +379,12 @@ def run_paths(case, want_trace=None):
             fails.append((path, f"max deviation {d:.3g}", "deviation < 1e-9",
                           what_diff or f"{grp}: result differs from the ordered product of embedded matrices"))
 
-    qc = build(case)
+    try:
+        qc = build(case)
+    except Exception as e:
+        fails.append(("build", f"{type(e).__name__}: {e}"[:300], "a circuit",
+                      f"circuit construction: add_gate raised {type(e).__name__} on a well-formed gate"))
+        return fails
     with EinsumSpy() as es:
         if "run_ket" in paths:
             attempt("run_ket", lambda: qc.run(ket).full().reshape(D), E @ psi)
@@ -859,6 +867,102 @@ def gen_object_circuit(rng, force=None):
     return dict(kind="circuit", N=N, gates=gates, users={}, seed=rng.randrange(2 ** 31))
 
 
+BOUNDARY = [0, 0.0, 2 * math.pi, -2 * math.pi, 4 * math.pi, 6 * math.pi, math.pi, -math.pi, 3 * math.pi, math.pi / 2]
+PARAM1 = ["RX", "RY", "RZ", "PHASEGATE", "CRX", "CRY", "CRZ", "CPHASE", "SWAPalpha", "RZX"]
+PARAMN = ["R", "QASMU", "MS"]
+
+
+def _fixed_gate(rng, N):
+    name = rng.choice(["SNOT", "X", "CNOT", "S", "SQRTNOT", "ISWAP", "T", "CY"])
+    return placed(rng, name, rng.sample(range(N), Q.N_QUBITS[name]))
+
+
+def gen_boundary_cases(rng, full=True):
+    """every parametrised gate kind (by name, class-built, generic ControlledGate, one-parameter user gate, GLOBALPHASE) at the
+    exact angles 0 (int and float), +-2pi, 4pi, 6pi, +-pi, 3pi, pi/2, between two fixed gates, through every path"""
+    out = []
+    rsm = np.random.RandomState(rng.randrange(2 ** 31))
+    for ai, ang in enumerate(BOUNDARY):
+        kinds = []
+        for name in PARAM1:
+            kinds.append(("name", name))
+        for cls in ["RX", "RY", "RZ", "CRX", "CRY", "CRZ", "CPHASE", "SWAPALPHA", "RZX"]:
+            kinds.append(("cls", cls))
+        kinds += [("ctrl", "RX"), ("ctrl", "RZ"), ("user1", 1), ("user1", 2), ("phase", None)]
+        for name in PARAMN:
+            kinds.append(("multi", name))
+        for ki, (kind, what) in enumerate(kinds):
+            if not full and (ki + ai) % 3 and not (ai == 2 + ki % 4):
+                continue          # quick: every kind still meets 0, a non-zero multiple of 2*pi and other angles
+            N = rng.choice([2, 3, 3])
+            users = {}
+            if kind == "name":
+                g = placed(rng, what, rng.sample(range(N), Q.N_QUBITS[what]))
+                g["arg"] = ang
+            elif kind == "cls":
+                g = obj_gate(rng, N, what, ang)
+            elif kind == "ctrl":
+                qs = rng.sample(range(N), 2)
+                g = dict(name="CTRL:" + what, cls="ControlledGate", target_gate=what, controls=qs[:1], targets=qs[1:],
+                         control_value=rng.randrange(2), arg=ang)
+            elif kind == "user1":
+                k = min(what, N)
+                users["UF1"] = dict(form="fun1", mat0=cm(rand_unitary(rsm, k)), mat1=cm(rand_unitary(rsm, k)))
+                g = dict(name="UF1", targets=rng.sample(range(N), k), controls=None, arg=ang)
+            elif kind == "phase":
+                g = dict(name="GLOBALPHASE", targets=None, controls=None, arg=ang)
+            else:
+                npar = Q.N_PARAMS[what]
+                slot = rng.randrange(npar)
+                g = placed(rng, what, rng.sample(range(N), Q.N_QUBITS[what]))
+                g["arg"] = [ang if i == slot else rng.choice([0.7, ang, 0.0]) for i in range(npar)]
+            gates = [_fixed_gate(rng, N), g, _fixed_gate(rng, N)]
+            out.append(dict(kind="circuit", N=N, gates=gates, users=users, seed=rng.randrange(2 ** 31), sweep="boundary-angle"))
+    return out
+
+
+CONTROLLED_LIB = ["CNOT", "CX", "CY", "CZ", "CSIGN", "CS", "CT", "CRX", "CRY", "CRZ", "CPHASE"]
+
+
+def gen_libname_user(rng, name=None):
+    """user gates registered under a LIBRARY gate name (the docstring of QubitCircuit uses 'T'): the circuit's user_gates entry
+    defines the gate; fixed operator / 0- / 1-parameter function; added by name (or as an instance of the library class of that
+    name), alone and mixed with library gates of other names and user gates with fresh names"""
+    from qutip_qip.operations import GATE_CLASS_MAP
+    keys = sorted(k for k in GATE_CLASS_MAP if k in Q.N_QUBITS)
+    N = rng.choice([2, 3, 3, 4])
+    name = name or rng.choice(keys)
+    if Q.N_QUBITS[name] > N:
+        N = 3
+    rsm = np.random.RandomState(rng.randrange(2 ** 31))
+    users = {}
+    form = rng.choice(["oper", "fun0", "fun1", "fun1"])
+    k = Q.N_QUBITS[name] if rng.random() < 0.85 else rng.choice([1, 2])
+    users[name] = dict(form=form, mat0=cm(rand_unitary(rsm, k)))
+    if form == "fun1":
+        users[name]["mat1"] = cm(rand_unitary(rsm, k))
+    arg = rng.choice([0, 0.0, 2 * math.pi, 0.7, -1.3]) if form == "fun1" else None
+    g = dict(name=name, targets=rng.sample(range(N), k), controls=None, arg=arg)
+    if name not in CONTROLLED_LIB and k == Q.N_QUBITS[name] and Q.N_PARAMS.get(name, 0) <= 1 and rng.random() < 0.25:
+        if Q.N_PARAMS.get(name, 0) == 0 or arg is not None:
+            g["cls"] = name          # an instance of the library class carrying the user-defined name
+            g["obj_name"] = name
+    gates = [g]
+    for _ in range(rng.choice([0, 0, 1, 2, 3])):
+        r = rng.random()
+        if r < 0.6:
+            other = rng.choice([c for c in LIB if c != name and Q.N_QUBITS[c] <= N])
+            gates.append(placed(rng, other, rng.sample(range(N), Q.N_QUBITS[other])))
+        elif r < 0.8:
+            fresh = f"FRESH{len(users)}"
+            users[fresh] = dict(form="oper", mat0=cm(rand_unitary(rsm, 1)))
+            gates.append(dict(name=fresh, targets=[rng.randrange(N)], controls=None, arg=None))
+        else:
+            gates.append(dict(g, targets=rng.sample(range(N), k)))
+    rng.shuffle(gates)
+    return dict(kind="circuit", N=N, gates=gates, users=users, seed=rng.randrange(2 ** 31), sweep="library-named user gate")
+
+
 def gen_malformed(rng):
     N = rng.choice([2, 3])
     kind = rng.choice(["user_controls", "user_fun2", "user_other", "user_arity"])
@@ -1204,6 +1308,13 @@ def correspond(ctx):
         cases.append(gen_random_circuit(rng))
     for _ in range(ctx.n(40, 300)):
         cases.append(gen_phase_circuit(rng))
+    # exact boundary angles on every parametrised gate kind; user gates named like library gates
+    cases += gen_boundary_cases(rng, full=ctx.thorough)
+    from qutip_qip.operations import GATE_CLASS_MAP as _GCM
+    for nm in sorted(k for k in _GCM if k in Q.N_QUBITS):
+        cases.append(gen_libname_user(rng, nm))
+    for _ in range(ctx.n(20, 400)):
+        cases.append(gen_libname_user(rng))
     # gate OBJECTS built from the gate classes: every class of GATE_CLASS_MAP at least once per run, then random mixes
     for cls in class_keys():
         cases.append(gen_object_circuit(rng, force=cls))
@@ -1252,8 +1363,24 @@ def correspond(ctx):
     return corr
 
 
+def _libname_refused(inp):
+    """user gate registered under a library name whose gate class rejects the placement at add_gate: a controlled-gate name (the
+    user gate has no controls) or a different number of qubits than the library gate of that name"""
+    users = inp.get("users") or {}
+    for g in inp.get("gates", []):
+        n = g.get("name")
+        if n in users and n in Q.N_QUBITS and not g.get("cls") and g.get("controls") is None:
+            k = len(g.get("targets") or [])
+            if n in CONTROLLED_LIB or k != Q.N_QUBITS[n]:
+                return True
+    return False
+
+
 def classify(f):
     inp = f.get("input") or {}
+    if (inp.get("kind") == "circuit" and inp.get("path") == "build" and "add_gate raised" in str(f.get("what", ""))
+            and _libname_refused(inp)):
+        return "user-gate-library-name-refused"
     if inp.get("kind") == "circuit" and inp.get("path") == "compact_phase_empty" and "raised" in str(f.get("what", "")):
         if any(g.get("name") == "GLOBALPHASE" for g in inp.get("gates", [])):
             return "compact-globalphase-refused"
@@ -1266,6 +1393,8 @@ def _check(case):
         c = {k: v for k, v in case.items() if k not in ("path", "set_orders")}
         if "path" in case and is_wellformed(c):
             c["paths"] = ["compact" if case["path"].startswith("compact") else ("kept" if case["path"].startswith("kept") else case["path"])]
+            if case["path"] == "build":
+                c["paths"] = ["run_ket"]
             return [f for f in check_circuit(c) if f["input"]["path"] == case["path"]]
         return check_circuit(c)
     fake = Corr()
@@ -1292,6 +1421,9 @@ def search(ctx, broken):
         cases.append(gen_phase_circuit(rng))
     for _ in range(300):
         cases.append(gen_object_circuit(rng))
+    cases += gen_boundary_cases(rng)
+    for _ in range(300):
+        cases.append(gen_libname_user(rng))
     for _ in range(40):
         cases.append(gen_gsp(rng, big=True))
     for _ in range(400):
